@@ -1,5 +1,226 @@
 package main
 
-func selftestMain(args []string) int { return 0 }
+// vcheck fixtures — the checker tested both ways on tiny examples (run by setup_cmd):
+// every analysis must fire on its negative example and be silent on its positive one.
 
-func fixturesMain() int { return 0 }
+import (
+	"fmt"
+	"os"
+	"path/filepath"
+	"strings"
+
+	"golang.org/x/tools/go/ssa"
+)
+
+func fixturesDir() string {
+	exe, err := os.Executable()
+	if err == nil {
+		d := filepath.Join(filepath.Dir(filepath.Dir(exe)), "checker", "testdata", "fix")
+		if _, err := os.Stat(d); err == nil {
+			return d
+		}
+	}
+	return filepath.Join(verifDir(), "checker", "testdata", "fix")
+}
+
+func fixturesMain() int {
+	w, err := LoadMod(fixturesDir(), "amd64", "fix", 1)
+	if err != nil {
+		fmt.Fprintln(os.Stderr, "fixtures: cannot load:", err)
+		return 2
+	}
+	sp := w.All[0]
+	pkg := w.Prog.Package(sp.Types)
+	fn := func(name string) *ssa.Function {
+		f := pkg.Func(name)
+		if f == nil {
+			panic("fixture function missing: " + name)
+		}
+		return f
+	}
+	method := func(typ, name string) *ssa.Function {
+		for _, f := range w.SrcFuncs() {
+			if f.Name() == name && f.Signature.Recv() != nil && strings.Contains(f.Signature.Recv().Type().String(), typ) {
+				return f
+			}
+		}
+		panic("fixture method missing: " + typ + "." + name)
+	}
+	failed := 0
+	n := 0
+	expect := func(what string, got, want bool) {
+		n++
+		if got != want {
+			failed++
+			fmt.Printf("FIXTURE FAIL %s: got %v want %v\n", what, got, want)
+		}
+	}
+	// A3
+	idxBlock := func(f *ssa.Function) *ssa.BasicBlock {
+		var b *ssa.BasicBlock
+		instrsOf(f, func(in ssa.Instruction) {
+			switch in.(type) {
+			case *ssa.IndexAddr, *ssa.Slice, *ssa.Lookup:
+				b = in.Block()
+			}
+		})
+		return b
+	}
+	expect("A3 GuardGood i < len", HoldsAt(idxBlock(fn("GuardGood")), "p1 < len(p0)"), true)
+	expect("A3 GuardGood i >= 0", HoldsAt(idxBlock(fn("GuardGood")), "p1 >= 0"), true)
+	expect("A3 GuardBad i < len", HoldsAt(idxBlock(fn("GuardBad")), "p1 < len(p0)"), false)
+	{
+		gl := GuardLits(idxBlock(fn("GuardAndGood")))
+		expect("A3 bool-phi expansion a <= b", containsStr(gl, "p1 <= p2"), true)
+		expect("A3 bool-phi expansion b <= len", containsStr(gl, "p2 <= len(p0)"), true)
+	}
+	// A4
+	once := func(f *ssa.Function) bool {
+		add := method("counter", "add")
+		ps, _ := Paths(f, PathOpts{})
+		for _, p := range ps {
+			if len(p.Calls(add)) != 1 {
+				return false
+			}
+		}
+		return len(ps) > 0
+	}
+	expect("A4 exactly-once PathOnceGood", once(fn("PathOnceGood")), true)
+	expect("A4 exactly-once PathOnceBad", once(fn("PathOnceBad")), false)
+	{
+		ps, _ := Paths(fn("SwitchFeasible"), PathOpts{})
+		// pruning: no path may take case 1/2 and then k == 3
+		bad := false
+		for _, p := range ps {
+			if (p.HasLit("p0 == 1") || p.HasLit("p0 == 2")) && p.HasLit("p0 == 3") {
+				bad = true
+			}
+		}
+		expect("A4 constant pruning", bad, false)
+		expect("A4 path count", len(ps) >= 3 && len(ps) <= 5, true)
+	}
+	// A5
+	{
+		fv, err := func() (v interface{}, e error) { return nil, nil }()
+		_ = fv
+		_ = err
+		items, _ := w.fieldByName("box", "items")
+		var kinds []string
+		for _, a := range Writes(w.FieldAccesses(items)) {
+			kinds = append(kinds, a.Fn.Name()+":"+a.Kind)
+		}
+		s := strings.Join(kinds, " ")
+		expect("A5 census finds Put store", strings.Contains(s, "Put:store"), true)
+		expect("A5 census flags address escape", strings.Contains(s, "Sneak:escape"), true)
+		m, _ := w.fieldByName("box", "m")
+		s = ""
+		for _, a := range Writes(w.FieldAccesses(m)) {
+			s += a.Fn.Name() + ":" + a.Kind + " "
+		}
+		expect("A5 census finds map update", strings.Contains(s, "Set:mapupdate"), true)
+	}
+	// A6
+	{
+		li := w.Locksets(w.SrcFuncs())
+		v, _ := w.fieldByName("guarded", "v")
+		held := map[string]bool{}
+		for _, a := range w.FieldAccesses(v) {
+			if a.Kind == "load" {
+				held[a.Fn.Name()] = len(li.Held(a.Instr)) > 0
+			}
+		}
+		expect("A6 helper inherits the lock from its only caller", held["helper"], true)
+		expect("A6 unlocked access reported", held["UnlockedBad"], false)
+		expect("A6 access after early unlock reported", held["EarlyUnlockBad"], false)
+	}
+	// A7
+	{
+		data := method("src", "Data")
+		isSrc := func(v ssa.Value) bool {
+			ex, ok := v.(*ssa.Extract)
+			if !ok || ex.Index != 0 {
+				return false
+			}
+			c, ok := ex.Tuple.(*ssa.Call)
+			return ok && c.Call.StaticCallee() == data
+		}
+		t := w.TaintFrom(w.SrcFuncs(), isSrc)
+		fns := map[string]bool{}
+		for _, m := range t.Mutations(w.SrcFuncs(), true) {
+			fns[m.Fn.Name()] = true
+		}
+		expect("A7 delete on Data() map reported", fns["TaintBad"], true)
+		expect("A7 copy then delete not reported", fns["TaintGood"], false)
+		isParam := func(v ssa.Value) bool {
+			p, ok := v.(*ssa.Parameter)
+			return ok && p.Parent().Name() == "TaintAppendBad"
+		}
+		t2 := w.TaintFrom(w.SrcFuncs(), isParam)
+		fns = map[string]bool{}
+		for _, m := range t2.Mutations(w.SrcFuncs(), true) {
+			fns[m.Fn.Name()+":"+m.Kind] = true
+		}
+		expect("A7 in-place append reported", fns["TaintAppendBad:append in place"], true)
+	}
+	// A8 (prover only; the compiler listing is exercised on the real tree)
+	proveAll := func(f *ssa.Function) bool {
+		ok := true
+		instrsOf(f, func(in ssa.Instruction) {
+			if o := oblOf(in); o != nil {
+				if al, isAl := oblContainerAlloc(in); isAl && (al == "varargs" || al == "slicelit") {
+					return
+				}
+				if !w.proveObl(f, o).ok {
+					ok = false
+				}
+			}
+		})
+		return ok
+	}
+	for _, c := range []struct {
+		name string
+		want bool
+	}{{"BoundsIndexGood", true}, {"BoundsIndexBad", false}, {"BoundsLoopGood", true}, {"BoundsLoopBad", false},
+		{"BoundsWrapBad", false}, {"BoundsWrapGood", true}, {"BoundsDivGood", true}, {"GuardGood", true}, {"GuardBad", false}, {"GuardAndGood", true}} {
+		expect("A8 prover "+c.name, proveAll(fn(c.name)), c.want)
+	}
+	// A9
+	for _, c := range []struct {
+		name     string
+		anchored bool
+		prefixOK bool
+	}{{"ReAnchored", true, true}, {"ReUnanchored", false, true}, {"RePrefixBad", true, false}} {
+		pat, _, err := w.regexpVarPatternIn(sp, c.name)
+		if err != nil {
+			expect("A9 pattern "+c.name, false, true)
+			continue
+		}
+		sh, _ := analyseRegexp(pat)
+		expect("A9 anchored "+c.name, sh != nil && sh.AnchoredStart && sh.AnchoredEnd && sh.OutsideWhitespaceOnly, c.anchored)
+		okPrefix := true
+		for _, alts := range literalAlternations(pat) {
+			for i := range alts {
+				for j := i + 1; j < len(alts); j++ {
+					if len(alts[i]) < len(alts[j]) && strings.HasPrefix(alts[j], alts[i]) {
+						okPrefix = false
+					}
+				}
+			}
+		}
+		expect("A9 alternation order "+c.name, okPrefix, c.prefixOK)
+	}
+	// linear arithmetic
+	{
+		x, y := linAtom("x"), linAtom("y")
+		fs := []Fact{geq(x, linConst(0), ""), ltI(x, y, ""), leq(y, linConst(10), "")}
+		expect("FM entails x <= 9", entails(fs, linConst(9).sub(x)), true)
+		expect("FM does not entail x <= 8", entails(fs, linConst(8).sub(x)), false)
+	}
+	fmt.Printf("fixtures: %d expectations, %d failed\n", n, failed)
+	if failed > 0 {
+		return 1
+	}
+	return 0
+}
+
+func selftestMain(args []string) int { return fixturesMain() }
